@@ -286,6 +286,8 @@ def make_system(cfg):
     if cfg["layout"] not in LAYOUTS:
         if cfg["layout"].startswith("tree/"):
             LAYOUTS[cfg["layout"]] = c20_trees.build(cfg["layout"][5:])
+        elif cfg["layout"].startswith("pair/"):
+            LAYOUTS[cfg["layout"]] = c20_trees.build_pair(cfg["layout"][5:])
         elif cfg["layout"].startswith("obj/"):
             LAYOUTS[cfg["layout"]] = c20_objects.build(cfg["layout"][4:])
     return AxiSystem(cfg, keep=cfg.get("keep", ()))
@@ -300,7 +302,7 @@ def sweep_data(a):
 
 def tree_cfg(code, keep=()):
     """cfg of a generated layout: code = "tree/<chain>" | "obj/<object options>" (plain chain codes mean trees)"""
-    name = code if code.startswith(("tree/", "obj/")) else "tree/" + code
+    name = code if code.startswith(("tree/", "obj/", "pair/")) else "tree/" + code
     return {"name": name, "layout": name, "tree": name, "addrs": [], "wpay": [], "maxo": 1, "hw": None,
             "max_states": 0, "keep": sorted(keep)}
 
@@ -624,16 +626,16 @@ def finding_key(layout, f):
 def main(run: Run):
     if run.thorough:
         vs = thorough_variants()
-        codes = ["tree/" + c for c in c20_trees.thorough_codes()] + ["obj/" + c for c in c20_objects.codes_thorough()]
+        codes = ["tree/" + c for c in c20_trees.thorough_codes()] + ["obj/" + c for c in c20_objects.codes_thorough()] + ["pair/" + c for c in c20_trees.pair_codes()]
     else:
         vs = quick_variants()
         pool = seed_pool()
         vs.append(pool[run.seed % len(pool)])
-        codes = ["tree/" + c for c in c20_trees.quick_codes()] + ["obj/" + c for c in c20_objects.codes_quick()]
+        codes = ["tree/" + c for c in c20_trees.quick_codes()] + ["obj/" + c for c in c20_objects.codes_quick()] + ["pair/" + c for c in c20_trees.pair_codes()]
     only = getattr(run, "only", None)
     if only:
         vs = [v for v in vs if v["name"] in only or v["layout"] in only]
-        codes = [c for c in codes if c in only or ("trees" in only and c.startswith("tree/")) or ("objects" in only and c.startswith("obj/"))]
+        codes = [c for c in codes if c in only or ("trees" in only and c.startswith("tree/")) or ("objects" in only and c.startswith("obj/")) or ("pairs" in only and c.startswith("pair/"))]
 
     # largest first: better packing on the pool
     def size_hint(v):
@@ -644,7 +646,10 @@ def main(run: Run):
         return (len(v["wpay"]) + 1) * (len(v["addrs"]) + 1) ** 2 * (4 if v["maxo"] > 1 else 1) * n
 
     tasks = [("bfs", v) for v in sorted(vs, key=lambda v: -size_hint(v))]
-    tasks += [("trees", chunk) for chunk in chunked(codes, 9 if not run.thorough else 20)]
+    # the pair layouts go to ONE worker in their fixed order (creation order of the specialisations is what they test)
+    tasks.append(("trees", [c for c in codes if c.startswith("pair/")]))
+    tasks += [("trees", chunk) for chunk in chunked([c for c in codes if not c.startswith("pair/")], 9 if not run.thorough else 20)]
+    tasks = [t for t in tasks if t[1]]
     run.count("variants", len(vs))
     run.count("trees", len(codes))
     all_events = set()
@@ -673,9 +678,9 @@ def main(run: Run):
                     run.count("trees_ok")
                     run.count("tree_registers_decoded", t["registers"])
                     is_obj = t["code"].startswith("obj/")
-                    run.count("objects_ok" if is_obj else "decode_trees_ok")
+                    run.count("objects_ok" if is_obj else ("pairs_ok" if t["code"].startswith("pair/") else "decode_trees_ok"))
                     if (is_obj and obj_sampled < 3 and t["code"].startswith(("obj/mem", "obj/out", "obj/reg"))) or \
-                            (not is_obj and tree_sampled < 3 and t["code"].count(".") >= 2):
+                            (t["code"].startswith("tree/") and tree_sampled < 3 and t["code"].count(".") >= 2):
                         if is_obj:
                             obj_sampled += 1
                             lay = c20_objects.build(t["code"][4:])
